@@ -226,8 +226,9 @@ class Ctx:
     if a.get('timed_out'):
       return
     b = execute(self.module_name, sub, case)
-    ka = (a['status'], digest(a.get('info', {}) and a['info'].get('outcome')), a.get('msg'))
-    kb = (b['status'], digest(b.get('info', {}) and b['info'].get('outcome')), b.get('msg'))
+    strip = lambda m: __import__('re').sub(r'/tmp/[A-Za-z0-9_]+', '/tmp/X', m or '')
+    ka = (a['status'], digest(a.get('info', {}) and a['info'].get('outcome')), strip(a.get('msg')))
+    kb = (b['status'], digest(b.get('info', {}) and b['info'].get('outcome')), strip(b.get('msg')))
     if ka != kb:
       raise HarnessError('harness nondeterminism in %s: the same case executed twice gave %r vs %r'
                          % (case_key(sub, case), ka, kb))
